@@ -350,6 +350,9 @@ def build_inputs(ctx):
             cases.append(("icode-siblings", g3.icode_siblings(g3.jitter(w, rng, 0.3), rng), None,
                           sorted(set(rng.sample([o for o in ALL_OPTS if o[1] == "1"], 3) + rng.sample([o for o in ALL_OPTS if o[1] == "0"], 2)))))
             cases.append(("occupancies", g3.random_occupancies(w, rng, 0.5), None, half))
+            sp = g3.split_residue(g3.jitter(w, rng, 0.3), rng)
+            if sp is not None:
+                cases.append(("split-residue", sp, None, some))
     for rep in range(ctx.pick(1, 4)):
         for tag, st in g3.clash_straddles(rng):
             if rng.random() < 0.5:
@@ -360,7 +363,7 @@ def build_inputs(ctx):
     for _ in range(ctx.pick(20, 200)):
         cases.append(("partial-occupancy:icode-siblings", g3.icode_siblings(g3.clash_partial(rng, rng.randint(2, 3)), rng), None, ALL_OPTS))
     cases += handmade()
-    cases = [c for c in cases if g3.well_formed(c[1]) and c[1].residues]
+    cases = [c for c in cases if g3.well_formed(c[1], allow_repeated_identity=c[0] == "split-residue") and c[1].residues]
     return cases
 
 
